@@ -281,6 +281,15 @@ func (p *Prog) ConstArgCallSites(c Callee, idx int, val string) []Site {
 
 // CallArg returns the n-th declared argument (excluding the receiver) of a call.
 func CallArg(cc *ssa.CallCommon, n int) ssa.Value {
+	if n == -1 { // the receiver
+		if cc.IsInvoke() {
+			return cc.Value
+		}
+		if cc.Signature().Recv() != nil && len(cc.Args) > 0 {
+			return cc.Args[0]
+		}
+		return nil
+	}
 	off := 0
 	if !cc.IsInvoke() && cc.Signature().Recv() != nil {
 		off = 1
